@@ -143,6 +143,16 @@ pub enum C03Case {
     /// by its own OS thread at the same time (supplementary sampling over OS schedules: the readers
     /// must not share a file cursor or any other state)
     ReopenThreads { threads: usize, compress: bool, cached: bool },
+    /// chromosomes as long as u32 allows (items at 0, around 2^31 and at the very end): boundary
+    /// alphabet ranges through the plain, caching and by-value paths
+    Huge { ips: u32, bs: u32, compress: bool },
+    /// the Python binding's records() (by path and from a file object) against the library's range
+    /// query on the same file: every range of a small multi-chromosome file / a boundary alphabet
+    /// on the u32-limit file, arguments given, absent and one-sided
+    Py { huge: bool },
+    /// one data block with `n` items (items_per_slot >= n): item offsets inside a block beyond
+    /// 16-bit products (5 462 x 12 bytes = 65 544) and counts near the u16 limit
+    BigSection { n: u32, compress: bool },
 }
 
 pub struct C03;
@@ -527,6 +537,86 @@ fn c03_cache_reset(n: u32, out: &mut Outcome) {
     }
 }
 
+fn huge_wig(ips: u32, bs: u32, compress: bool) -> WigCase {
+    let mut o = Opts::base();
+    o.ips = ips;
+    o.bs = bs;
+    o.compress = compress;
+    o.zoom = Zoom::Manual(vec![1 << 20]);
+    crate::wfam::expand(&crate::wfam::FileCase::WigHuge { opts: o }).into_wig().unwrap()
+}
+
+fn c03_alphabet_ranges(c: &WigCase, bytes: &[u8], out: &mut Outcome) {
+    let tags = wig_tags(c);
+    let r = guarded(|| {
+        let open = || BigWigRead::open(MemFile::new(bytes)).map_err(|e| format!("{}", e));
+        let mut plain = open().unwrap();
+        let mut cached = open().unwrap().cached();
+        for ch in &c.chroms {
+            for (s, e) in query_alphabet(ch, 200) {
+                if s >= e {
+                    continue;
+                }
+                out.count("range_queries", 3);
+                let g = plain.get_interval(&ch.name, s, e).map_err(|e| format!("{}", e)).and_then(collect_wig);
+                cmp_answer("plain", ch, s, e, g, &tags, out);
+                let g = cached.get_interval(&ch.name, s, e).map_err(|e| format!("{}", e)).and_then(collect_wig);
+                cmp_answer("cached", ch, s, e, g, &tags, out);
+                let g = open().and_then(|r| r.get_interval_move(&ch.name, s, e).map_err(|e| format!("{}", e))).and_then(collect_wig);
+                cmp_answer("move", ch, s, e, g, &tags, out);
+            }
+        }
+    });
+    if let Err(p) = r {
+        out.fail("read_panicked", &tags, p);
+    }
+}
+
+fn alphabet_points(items: &[(u32, u32)], len: u32) -> Vec<u32> {
+    let mut pts = std::collections::BTreeSet::new();
+    pts.insert(0u32);
+    pts.insert(len);
+    for (s, e) in items {
+        for p in [*s, *e] {
+            pts.insert(p);
+            pts.insert(p.saturating_sub(1));
+            pts.insert(p.saturating_add(1).min(len));
+        }
+    }
+    pts.into_iter().collect()
+}
+
+fn c03_py(c: &WigCase, bytes: &[u8], out: &mut Outcome) {
+    let tags = wig_tags(c);
+    let mut queries = vec![];
+    let mut expected = vec![];
+    let r = guarded(|| {
+        let mut rd = BigWigRead::open(Cursor::new(bytes.to_vec())).unwrap();
+        for ch in &c.chroms {
+            let items: Vec<(u32, u32)> = ch.items.iter().map(|i| (i.s, i.e)).collect();
+            for q in crate::pyfam::py_queries_for(&ch.name, ch.len, &alphabet_points(&items, ch.len)) {
+                let want = crate::pyfam::py_effective_range(ch.len, q.1, q.2).and_then(|(s, e)| {
+                    rd.get_interval(&ch.name, s, e).ok().and_then(|it| {
+                        let mut v = vec![];
+                        for x in it {
+                            let x = x.ok()?;
+                            v.push(vec![x.start.to_string(), x.end.to_string(), format!("{}", x.value as f64)]);
+                        }
+                        Some(v)
+                    })
+                });
+                queries.push(q);
+                expected.push(want);
+            }
+        }
+    });
+    if let Err(p) = r {
+        out.fail("read_panicked", &tags, p);
+        return;
+    }
+    crate::pyfam::py_records_check(bytes, false, &queries, &expected, "bigWig", &tags, out);
+}
+
 fn c03_reopen_threads(threads: usize, compress: bool, cached: bool, out: &mut Outcome) {
     use std::io::Write as _;
     let n = 400u32;
@@ -720,7 +810,10 @@ impl Check for C03 {
                 .chain(multi)
                 .chain(hist)
                 .chain(std::iter::once(C03Case::CacheReset { n: 5003 }))
-                .chain([(8usize, true, false), (8, false, true), (3, true, true), (16, false, false)].into_iter().map(|(threads, compress, cached)| C03Case::ReopenThreads { threads, compress, cached })),
+                .chain([(8usize, true, false), (8, false, true), (3, true, true), (16, false, false)].into_iter().map(|(threads, compress, cached)| C03Case::ReopenThreads { threads, compress, cached }))
+                .chain([(1u32, 2u32, true), (1, 2, false), (2, 3, true), (1024, 256, false)].into_iter().map(|(ips, bs, compress)| C03Case::Huge { ips, bs, compress }))
+                .chain([false, true].into_iter().map(|huge| C03Case::Py { huge }))
+                .chain([(7000u32, true), (7000, false), (65535, false)].into_iter().map(|(n, compress)| C03Case::BigSection { n, compress })),
         )
     }
     fn run(&self, case: &C03Case, out: &mut Outcome) {
@@ -752,6 +845,67 @@ impl Check for C03 {
                 out.nontrivial = true;
                 c03_reopen_threads(*threads, *compress, *cached, out);
             }
+            C03Case::Huge { ips, bs, compress } => {
+                out.nontrivial = true;
+                let c = huge_wig(*ips, *bs, *compress);
+                let Some(bytes) = do_write_wig(&c, out) else { return };
+                out.count("files_with_coordinates_up_to_u32_max", 1);
+                c03_alphabet_ranges(&c, &bytes, out);
+            }
+            C03Case::BigSection { n, compress } => {
+                out.nontrivial = true;
+                let mut o = Opts::base();
+                o.ips = 65535;
+                o.compress = *compress;
+                o.zoom = Zoom::Manual(vec![]);
+                let ch = WChrom { name: "s".into(), len: 3 * n + 5, items: (0..*n).map(|i| WItem { s: 3 * i, e: 3 * i + 2, vb: ((i % 1009) as f32 * 0.125).to_bits() }).collect() };
+                let c = WigCase { chroms: vec![ch.clone()], extra_sizes: vec![], allow_ooo: false, opts: o };
+                let Some(bytes) = do_write_wig(&c, out) else { return };
+                let tags = wig_tags(&c);
+                let r = guarded(|| {
+                    let mut plain = BigWigRead::open(MemFile::new(&bytes)).unwrap();
+                    let mut cached = BigWigRead::open(MemFile::new(&bytes)).unwrap().cached();
+                    let last = 3 * (n - 1);
+                    let mut qs = vec![(0, ch.len), (last, ch.len), (last, last + 1), (0, 2), (3 * (n / 2), 3 * (n / 2) + 40)];
+                    // around the items whose byte offset in the block crosses multiples of 65 536
+                    for k in 1..=(*n as u64 * 12 / 65536) {
+                        let i = (k * 65536 / 12) as u32;
+                        if i + 3 < *n {
+                            qs.push((3 * (i - 2), 3 * (i + 3)));
+                            qs.push((3 * i, 3 * i + 2));
+                        }
+                    }
+                    for (s, e) in qs {
+                        out.count("range_queries", 2);
+                        let g = plain.get_interval(&ch.name, s, e).map_err(|e| format!("{}", e)).and_then(collect_wig);
+                        cmp_answer("plain", &ch, s, e, g, &tags, out);
+                        let g = cached.get_interval(&ch.name, s, e).map_err(|e| format!("{}", e)).and_then(collect_wig);
+                        cmp_answer("cached", &ch, s, e, g, &tags, out);
+                        if e - s < 100_000 {
+                            let v = plain.values(&ch.name, s, e).map_err(|e| format!("{}", e));
+                            cmp_values("plain", &ch, s, e, v, &tags, out);
+                        }
+                    }
+                    out.count("big_section_files", 1);
+                });
+                if let Err(p) = r {
+                    out.fail("read_panicked", &tags, p);
+                }
+            }
+            C03Case::Py { huge } => {
+                out.nontrivial = true;
+                let c = if *huge {
+                    huge_wig(1, 2, true)
+                } else {
+                    let mut o = Opts::base();
+                    o.ips = 1;
+                    o.bs = 2;
+                    o.zoom = Zoom::Manual(vec![4]);
+                    crate::wfam::expand(&crate::wfam::FileCase::WigNames { set: 0, lay: 1, opts: o }).into_wig().unwrap()
+                };
+                let Some(bytes) = do_write_wig(&c, out) else { return };
+                c03_py(&c, &bytes, out);
+            }
         }
     }
     fn space(&self, tier: Tier) -> serde_json::Value {
@@ -778,9 +932,88 @@ pub enum C04Case {
     Tool(BedCase),
     Ranges(BedCase),
     Histories { file: BedCase, depth: usize, cached: bool },
+    /// u32-limit chromosomes: boundary alphabet ranges (see C03Case::Huge)
+    Huge { ips: u32, bs: u32, compress: bool },
+    /// n one-entry blocks through ONE caching reader: more distinct blocks than its cache holds
+    /// (5 000), then the earliest blocks again
+    CacheReset { n: u32 },
+    /// the Python binding's records() against the library's range query (see C03Case::Py)
+    Py { huge: bool },
 }
 
 pub struct C04;
+
+fn huge_bed(ips: u32, bs: u32, compress: bool) -> BedCase {
+    let mut o = Opts::base();
+    o.ips = ips;
+    o.bs = bs;
+    o.compress = compress;
+    o.zoom = Zoom::Manual(vec![1 << 20]);
+    let mut c = crate::wfam::expand(&crate::wfam::FileCase::BedHuge { opts: o }).into_bed().unwrap();
+    // a long early entry on the longest chromosome, so that spans nest across 2^31
+    c.chroms[0].items.insert(1, BItem { s: 5, e: 4_000_000_000, rest: "long".into() });
+    c
+}
+
+fn c04_alphabet_ranges(c: &BedCase, bytes: &[u8], out: &mut Outcome) {
+    let tags = bed_tags(c);
+    let r = guarded(|| {
+        let open = || BigBedRead::open(MemFile::new(bytes)).map_err(|e| format!("{}", e));
+        let mut plain = open().unwrap();
+        let mut cached = open().unwrap().cached();
+        for ch in &c.chroms {
+            let items: Vec<(u32, u32)> = ch.items.iter().map(|i| (i.s, i.e)).collect();
+            let pts = alphabet_points(&items, ch.len);
+            for (i, &s) in pts.iter().enumerate() {
+                for &e in &pts[i + 1..] {
+                    out.count("range_queries", 3);
+                    let g = plain.get_interval(&ch.name, s, e).map_err(|e| format!("{}", e)).and_then(collect_bed);
+                    cmp_bed_answer("plain", ch, s, e, g, &tags, out);
+                    let g = cached.get_interval(&ch.name, s, e).map_err(|e| format!("{}", e)).and_then(collect_bed);
+                    cmp_bed_answer("cached", ch, s, e, g, &tags, out);
+                    let g = open().and_then(|r| r.get_interval_move(&ch.name, s, e).map_err(|e| format!("{}", e))).and_then(collect_bed);
+                    cmp_bed_answer("move", ch, s, e, g, &tags, out);
+                }
+            }
+        }
+    });
+    if let Err(p) = r {
+        out.fail("read_panicked", &tags, p);
+    }
+}
+
+fn c04_py(c: &BedCase, bytes: &[u8], out: &mut Outcome) {
+    let tags = bed_tags(c);
+    let mut queries = vec![];
+    let mut expected = vec![];
+    let r = guarded(|| {
+        let mut rd = BigBedRead::open(Cursor::new(bytes.to_vec())).unwrap();
+        for ch in &c.chroms {
+            let items: Vec<(u32, u32)> = ch.items.iter().map(|i| (i.s, i.e)).collect();
+            for q in crate::pyfam::py_queries_for(&ch.name, ch.len, &alphabet_points(&items, ch.len)) {
+                let want = crate::pyfam::py_effective_range(ch.len, q.1, q.2).and_then(|(s, e)| {
+                    rd.get_interval(&ch.name, s, e).ok().and_then(|it| {
+                        let mut v = vec![];
+                        for x in it {
+                            let x = x.ok()?;
+                            let mut row = vec![x.start.to_string(), x.end.to_string()];
+                            row.extend(x.rest.split_whitespace().map(|t| t.to_string()));
+                            v.push(row);
+                        }
+                        Some(v)
+                    })
+                });
+                queries.push(q);
+                expected.push(want);
+            }
+        }
+    });
+    if let Err(p) = r {
+        out.fail("read_panicked", &tags, p);
+        return;
+    }
+    crate::pyfam::py_records_check(bytes, true, &queries, &expected, "bigBed", &tags, out);
+}
 
 type Ent = (u32, u32, String);
 
@@ -1160,7 +1393,12 @@ impl Check for C04 {
                 })
             })
         });
-        Box::new(singles.chain(multi).chain(hist).chain(tools))
+        let extra = [(1u32, 2u32, true), (1, 2, false), (2, 3, true), (1024, 256, false)]
+            .into_iter()
+            .map(|(ips, bs, compress)| C04Case::Huge { ips, bs, compress })
+            .chain([false, true].into_iter().map(|huge| C04Case::Py { huge }))
+            .chain(std::iter::once(C04Case::CacheReset { n: 5203 }));
+        Box::new(singles.chain(multi).chain(hist).chain(tools).chain(extra))
     }
     fn run(&self, case: &C04Case, out: &mut Outcome) {
         match case {
@@ -1193,6 +1431,59 @@ impl Check for C04 {
                 let Some(bytes) = do_write_bed(file, out) else { return };
                 out.nontrivial = true;
                 c04_histories(file, *depth, *cached, &bytes, out);
+            }
+            C04Case::Huge { ips, bs, compress } => {
+                out.nontrivial = true;
+                let c = huge_bed(*ips, *bs, *compress);
+                let Some(bytes) = do_write_bed(&c, out) else { return };
+                out.count("files_with_coordinates_up_to_u32_max", 1);
+                c04_alphabet_ranges(&c, &bytes, out);
+            }
+            C04Case::CacheReset { n } => {
+                out.nontrivial = true;
+                let mut o = Opts::base();
+                o.ips = 1;
+                o.zoom = Zoom::Manual(vec![]);
+                let ch = BChrom { name: "r".into(), len: 2 * n + 100, items: (0..*n).map(|i| BItem { s: 2 * i, e: 2 * i + if i % 50 == 0 { 95 } else { 3 }, rest: format!("e{}", i) }).collect() };
+                let c = BedCase { chroms: vec![ch.clone()], extra_sizes: vec![], allow_ooo: false, autosql: None, opts: o };
+                let Some(bytes) = do_write_bed(&c, out) else { return };
+                let tags = bed_tags(&c);
+                let r = guarded(|| {
+                    let mut cached = BigBedRead::open(Cursor::new(bytes.clone())).unwrap().cached();
+                    let g = cached.get_interval("r", 0, ch.len).map_err(|e| format!("{}", e)).and_then(collect_bed);
+                    cmp_bed_answer("cached full", &ch, 0, ch.len, g, &tags, out);
+                    for round in 0..2 {
+                        for b in [0u32, 1, 2, 49, 50, 51, 4998, 4999, 5000, 5001, 5002, n - 2, n - 1] {
+                            for (s, e) in [(2 * b, 2 * b + 1), (2 * b, 2 * b + 25), (2 * b.saturating_sub(1), 2 * b + 2)] {
+                                out.count("range_queries", 1);
+                                let g = cached.get_interval("r", s, e.min(ch.len)).map_err(|e| format!("{}", e)).and_then(collect_bed);
+                                cmp_bed_answer(&format!("cached round {}", round), &ch, s, e.min(ch.len), g, &tags, out);
+                            }
+                        }
+                        for b in (0..*n).rev().step_by(7) {
+                            let g = cached.get_interval("r", 2 * b, 2 * b + 1).map_err(|e| format!("{}", e)).and_then(collect_bed);
+                            cmp_bed_answer("cached refill", &ch, 2 * b, 2 * b + 1, g, &tags, out);
+                        }
+                    }
+                    out.count("cache_reset_scenarios", 1);
+                });
+                if let Err(p) = r {
+                    out.fail("read_panicked", &tags, p);
+                }
+            }
+            C04Case::Py { huge } => {
+                out.nontrivial = true;
+                let c = if *huge {
+                    huge_bed(1, 2, true)
+                } else {
+                    let mut o = Opts::base();
+                    o.ips = 1;
+                    o.bs = 2;
+                    o.zoom = Zoom::Manual(vec![4]);
+                    crate::wfam::expand(&crate::wfam::FileCase::BedNames { set: 0, lay: 1, opts: o }).into_bed().unwrap()
+                };
+                let Some(bytes) = do_write_bed(&c, out) else { return };
+                c04_py(&c, &bytes, out);
             }
         }
     }
@@ -1229,6 +1520,16 @@ pub struct C05Case {
     /// is queried again
     #[serde(default)]
     pub faults: bool,
+    /// item j sits at j * step + [1, 3) with step = 4.29e9 / n on a chromosome of u32::MAX bases
+    #[serde(default)]
+    pub spread: bool,
+}
+
+impl C05Case {
+    fn spread(mut self) -> C05Case {
+        self.spread = true;
+        self
+    }
 }
 
 pub struct C05;
@@ -1467,20 +1768,28 @@ impl Check for C05 {
                     if nchrom > n {
                         continue;
                     }
-                    v.push(C05Case { n, b, nchrom, bed: false, nested: false, faults: false });
+                    v.push(C05Case { n, b, nchrom, bed: false, nested: false, faults: false, spread: false });
                     if nchrom == 1 || n % 3 == 0 {
-                        v.push(C05Case { n, b, nchrom, bed: true, nested: false, faults: false });
+                        v.push(C05Case { n, b, nchrom, bed: true, nested: false, faults: false, spread: false });
                     }
                     if nchrom == 1 || n % 3 == 1 {
-                        v.push(C05Case { n, b, nchrom, bed: true, nested: true, faults: false });
+                        v.push(C05Case { n, b, nchrom, bed: true, nested: true, faults: false, spread: false });
                     }
                 }
             }
         }
         // a few large fan-outs so that node counts near the u16 child count are not special
-        v.push(C05Case { n: 300, b: 256, nchrom: 2, bed: false, nested: false, faults: false });
-        v.push(C05Case { n: 1000, b: 10, nchrom: 3, bed: false, nested: false, faults: false });
-        v.push(C05Case { n: 300, b: 7, nchrom: 2, bed: true, nested: true, faults: false });
+        v.push(C05Case { n: 300, b: 256, nchrom: 2, bed: false, nested: false, faults: false, spread: false });
+        v.push(C05Case { n: 1000, b: 10, nchrom: 3, bed: false, nested: false, faults: false, spread: false });
+        v.push(C05Case { n: 300, b: 7, nchrom: 2, bed: true, nested: true, faults: false, spread: false });
+        // nodes with more than 32 and more than 64 children whose spans nest
+        v.push(C05Case { n: 200, b: 64, nchrom: 1, bed: true, nested: true, faults: false, spread: false });
+        v.push(C05Case { n: 300, b: 256, nchrom: 1, bed: true, nested: true, faults: false, spread: false });
+        // the same trees spread over a chromosome as long as u32 allows (positions 2^31 apart)
+        for (n, b) in [(40u32, 4u32), (9, 2), (200, 64)] {
+            v.push(C05Case { n, b, nchrom: 1, bed: false, nested: false, faults: false, spread: false }.spread());
+            v.push(C05Case { n, b, nchrom: 1, bed: true, nested: true, faults: false, spread: false }.spread());
+        }
         // reader-side fault histories on trees of 1-4 levels
         let fns: &[u32] = if tier == Tier::Quick { &[1, 2, 3, 5, 9] } else { &[1, 2, 3, 4, 5, 8, 9, 17, 28] };
         for &n in fns {
@@ -1489,8 +1798,8 @@ impl Check for C05 {
                     if nchrom > n {
                         continue;
                     }
-                    v.push(C05Case { n, b, nchrom, bed: false, nested: false, faults: true });
-                    v.push(C05Case { n, b, nchrom, bed: true, nested: true, faults: true });
+                    v.push(C05Case { n, b, nchrom, bed: false, nested: false, faults: true, spread: false });
+                    v.push(C05Case { n, b, nchrom, bed: true, nested: true, faults: true, spread: false });
                 }
             }
         }
@@ -1499,19 +1808,25 @@ impl Check for C05 {
     fn run(&self, c: &C05Case, out: &mut Outcome) {
         // block i of the file goes to chromosome floor(i*nchrom/n); inside a chromosome the j-th
         // item is [3j+1, 3j+3)
+        // spread: every coordinate is multiplied by k so that the items reach u32::MAX
+        let k: u32 = if c.spread { (u32::MAX as u64 / (3 * c.n as u64 + 16)) as u32 } else { 1 };
         let mut per: Vec<Vec<(u32, u32)>> = vec![vec![]; c.nchrom as usize];
         for i in 0..c.n {
             let ci = (i * c.nchrom / c.n) as usize;
             let j = per[ci].len() as u32;
             let e = if c.nested && j % 4 == 0 { 3 * j + 15 } else { 3 * j + 3 };
-            per[ci].push((3 * j + 1, e));
+            per[ci].push(((3 * j + 1) * k, e * k));
         }
-        let len = 3 * c.n + 16;
+        let len = (3 * c.n + 16) * k;
+        if c.spread {
+            out.count("trees_over_a_u32_limit_chromosome", 1);
+        }
         let mut o = Opts::base();
         o.ips = 1;
         o.bs = c.b;
         o.compress = c.n % 2 == 0;
-        o.zoom = Zoom::Manual(vec![2, 4]);
+        // spread trees: resolutions in proportion, so that the zoom levels stay small
+        o.zoom = if c.spread { Zoom::Manual(vec![1 << 22, 1 << 24]) } else { Zoom::Manual(vec![2, 4]) };
         o.two_pass = c.n % 3 == 0;
         let names: Vec<String> = (0..c.nchrom).map(|i| format!("k{}", i)).collect();
         let mut file_items: Vec<Vec<(u32, u32)>> = per.clone();
@@ -1615,7 +1930,7 @@ impl Check for C05 {
             let maxitems = per.iter().map(|p| p.len()).max().unwrap_or(0) as u32;
             // boundary coordinates: quick keeps all for n <= 20; large trees sample every block
             // boundary but only +-1 around it (still every boundary)
-            let big = c.n > 60;
+            let big = c.n > 60 || (c.spread && c.n > 12);
             // anchors (large trees only): blocks next to node boundaries of the two lowest levels
             let mut anchors = std::collections::BTreeSet::new();
             for j in 0..maxitems {
@@ -1625,9 +1940,10 @@ impl Check for C05 {
                 }
                 let long_end = if c.nested && j % 4 == 0 { 3 * j + 15 } else { 3 * j + 3 };
                 for p in [3 * j + 1, 3 * j + 3, long_end] {
+                    let p = p * k;
                     coords.insert(p.saturating_sub(1));
                     coords.insert(p);
-                    coords.insert(p + 1);
+                    coords.insert(p.saturating_add(1));
                     if j < 2 || j + 2 >= maxitems || (c.b * c.b < maxitems && near(c.b * c.b)) {
                         anchors.insert(p);
                     }
@@ -1640,7 +1956,7 @@ impl Check for C05 {
                 for (ci, name) in names.iter().enumerate() {
                     for (ai, &s) in coords.iter().enumerate() {
                         for &e in coords[ai..].iter() {
-                            if big && (e - s) > 12 && !far_ok(s, e) {
+                            if big && (e - s) > 12 * k && !far_ok(s, e) {
                                 continue;
                             }
                             if s == e {
@@ -1653,11 +1969,15 @@ impl Check for C05 {
                             // the caching reader, fresh for this first query, then every whole
                             // chromosome: nodes cached while answering a narrow query must serve
                             // every later one
-                            if !big || e - s <= 4 {
+                            if !big || e - s <= 4 * k {
                                 out.count("cached_first_query_histories", 1);
                                 let mut cr = BigBedRead::open(Cursor::new(bytes.clone())).unwrap().cached();
                                 if let Err(m) = c05_bed_q(&mut cr, name, s, e, &file_items[ci]) {
                                     out.fail("cached_index_search_differs_from_linear_scan", &[], format!("first query: {}", m));
+                                }
+                                // the same query again: every node it needs is now served from the cache
+                                if let Err(m) = c05_bed_q(&mut cr, name, s, e, &file_items[ci]) {
+                                    out.fail("cached_index_search_differs_from_linear_scan", &[], format!("same query repeated: {}", m));
                                 }
                                 for (cj, nm) in names.iter().enumerate() {
                                     if let Err(m) = c05_bed_q(&mut cr, nm, 0, len, &file_items[cj]) {
@@ -1694,7 +2014,7 @@ impl Check for C05 {
                         .collect();
                     for (ai, &s) in coords.iter().enumerate() {
                         for &e in coords[ai..].iter() {
-                            if big && (e - s) > 12 && !far_ok(s, e) {
+                            if big && (e - s) > 12 * k && !far_ok(s, e) {
                                 continue;
                             }
                             out.count("index_queries", 1);
@@ -1702,11 +2022,14 @@ impl Check for C05 {
                                 if let Err(m) = c05_wig_q(&mut rd, name, s, e, &file_items[ci]) {
                                     out.fail("index_search_differs_from_linear_scan", &[], m);
                                 }
-                                if !big || e - s <= 4 {
+                                if !big || e - s <= 4 * k {
                                     out.count("cached_first_query_histories", 1);
                                     let mut cr = BigWigRead::open(Cursor::new(bytes.clone())).unwrap().cached();
                                     if let Err(m) = c05_wig_q(&mut cr, name, s, e, &file_items[ci]) {
                                         out.fail("cached_index_search_differs_from_linear_scan", &[], format!("first query: {}", m));
+                                    }
+                                    if let Err(m) = c05_wig_q(&mut cr, name, s, e, &file_items[ci]) {
+                                        out.fail("cached_index_search_differs_from_linear_scan", &[], format!("same query repeated: {}", m));
                                     }
                                     for (cj, nm) in names.iter().enumerate() {
                                         if let Err(m) = c05_wig_q(&mut cr, nm, 0, len, &file_items[cj]) {
